@@ -738,12 +738,13 @@ impl LineBuffer {
             }
             CharSearch::Forward(_) => shift + pos,
             CharSearch::ForwardBefore(_) => {
+                // step back one grapheme cluster (not one char)
                 shift + pos
-                    - self.buf[..shift + pos]
-                        .chars()
+                    - self.buf[self.pos..shift + pos]
+                        .graphemes(true)
                         .next_back()
                         .unwrap()
-                        .len_utf8()
+                        .len()
             }
         })
     }
